@@ -396,7 +396,6 @@ new_partition = Fn(F_MIN, 'Minimizer', 'calculate_new_partition', ret='r', props
     spec="""
 requires
     """ + PART_PRE + """
-    all_nonempty(pv(partition@)),
 ensures
     // every group is replaced, in order, by the pieces split_group cuts it into
     exists|org: Seq<int>| #[trigger] refined(transitions@, pv(partition@), pv(r@), org, partition@.len() as int),
@@ -425,7 +424,7 @@ let mut __i: usize = 0;
 while __i < partition.len()
     //@label new_partition.groups
     invariant
-        0 <= __i <= partition@.len(), old == pv(partition@), tm == transitions@, groups_disjoint(old), all_nonempty(old),
+        0 <= __i <= partition@.len(), old == pv(partition@), tm == transitions@, groups_disjoint(old),
         refined(tm, old, pv(new_partition@), org, __i as int),
     decreases partition@.len() - __i
 {
@@ -1266,7 +1265,7 @@ proof {
 
 minimize = Fn(F_MIN, 'Minimizer', 'minimize', ret='r', props=P, attrs='#[verifier::loop_isolation(false)] #[verifier::allow_complex_invariants]',
     spec="""
-requires d_wf(dfa), !dfa.end_states@[0].0
+requires d_wf(dfa)
 ensures
     // the result is the quotient of the automaton by a stable partition that never merges states accepting different token types (or an
     // accepting with a non-accepting state); group 0 holds the start state; no more states than before
@@ -1398,23 +1397,20 @@ proof {
         let tm = transitions@;
         assert forall|s: StateID, cc: CharClassID, t: StateID| #[trigger] tm_edge(tm, s, cc, t) <==> (s.0 < d.states@.len() && d.states@[s.0 as int].transitions@.contains((cc, StateSetID(t.0)))) by { }
     }
-    assert(in_grp(pv(partition_old@), 0, 0));
-    assert(all_nonempty(pv(partition_old@))) by {
-        assert forall|g: int| 0 <= g < pv(partition_old@).len() implies set_nonempty(#[trigger] pv(partition_old@)[g]) by {
-            if g == 0 { assert(pv(partition_old@)[0].contains(StateID(0))); }
-            else { assert(grp_nonempty(pv(partition_old@), g)); let s = choose|s: int| #[trigger] in_grp(pv(partition_old@), g, s); assert(pv(partition_old@)[g].contains(StateID(s as u32))); }
-        }
+    assert forall|g: int| 1 <= g < pv(partition_old@).len() implies set_nonempty(#[trigger] pv(partition_old@)[g]) by {
+        assert(grp_nonempty(pv(partition_old@), g)); let s = choose|s: int| #[trigger] in_grp(pv(partition_old@), g, s); assert(pv(partition_old@)[g].contains(StateID(s as u32)));
     }
-    lemma_groups_bounded(pv(partition_old@), n);
+    lemma_groups_bounded1(pv(partition_old@), n);
 }
 let ghost tm = transitions@;
 """),
         LoopSpec('while changed {', """
 invariant
     d == dfa, tm == transitions@, tm_ok(d, tm), d_wf(d), n == d.states@.len(),
-    part_ok(pv(partition_old@), n), acc_homog(d, pv(partition_old@)), all_nonempty(pv(partition_old@)), partition_old@.len() <= n,
-    !changed ==> pv(partition_new@) == pv(partition_old@) && self_stable(tm, pv(partition_new@)),
-decreases n - partition_old@.len(), (if changed { 1int } else { 0int })
+    part_ok(pv(partition_old@), n), acc_homog(d, pv(partition_old@)), partition_old@.len() <= n + 1,
+    !changed ==> pv(partition_new@) == pv(partition_old@) && self_stable(tm, pv(partition_new@)) && all_nonempty(pv(partition_new@)),
+// only the initial partition can hold an empty group (no non-accepting state): it is gone after the first round
+decreases (if all_nonempty(pv(partition_old@)) { 0int } else { 1int }), n + 1 - partition_old@.len(), (if changed { 1int } else { 0int })
 """, label='minimize.refine'),
         Ins('after', 'while changed {', """
 let ghost po = pv(partition_old@);
@@ -1439,7 +1435,7 @@ proof {
     if !changed {
         assert(pn == po);
         assert(self_stable(tm, pn));
-    } else {
+    } else if all_nonempty(po) {
         if pn.len() == po.len() { assert(pn =~= po); }
         assert(pn.len() > po.len());
     }
@@ -1451,6 +1447,7 @@ proof {
 proof {
     assert(pv(partition_new@) == pv(partition_old@));
     assert(has_grp(pv(partition_new@), 0));
+    lemma_groups_bounded(pv(partition_new@), n);
 }
 """),
     ])
